@@ -537,6 +537,9 @@ def parse_obs(s, obs):
         o["data"] = r.take(n)
         n = r.next()
         o["echo"] = None if n < 0 else r.take(n)
+    if r.i < len(obs) and obs[r.i] == -778:
+        r.next()
+        o["over_privileged"] = r.next()      # 1 same CPI view, 0 different, -1 rejected, 2 not run
     return o
 
 
@@ -612,6 +615,11 @@ def predicate(c, obs):
             return "CPI wrote %d accounts, declared %d" % (len(o["cpi_metas"]), o["declared_len"])
         if not o["cpi_data_same"] or o["cpi_program"] != PROG:
             return "CPI data / program differ from the client instruction"
+    if o.get("over_privileged") == 0:
+        return ("the CPI built from the account set changes when the caller's accounts hold more privileges than the set "
+                "declares (signer + writable everywhere): CPI metas must come from the account set, like the client metas")
+    if o.get("over_privileged") == -1:
+        return "the program rejects its own instruction when the accounts hold more privileges than the metas ask for"
     return None
 
 
